@@ -456,6 +456,13 @@ func (b *sourcePathsBuilder) remapMethod(
 	if !b.closure.hasType(method, b.options) {
 		return nil, true, nil
 	}
+	// Like fields, methods are also filtered by their request and response types.
+	for _, typeName := range []string{method.GetInputType(), method.GetOutputType()} {
+		typeInfo := b.imageIndex.ByName[protoreflect.FullName(strings.TrimPrefix(typeName, "."))]
+		if !b.closure.hasType(typeInfo.element, b.options) {
+			return nil, true, nil
+		}
+	}
 	return method, false, nil
 }
 
